@@ -46,6 +46,26 @@ func verifInstant(name string) time.Time {
 	return time.Unix(sec, nsec).UTC()
 }
 
+// verifInstantZ is verifInstant presented in a solver-chosen location.
+func verifInstantZ(name string) time.Time { return verifZone(name, verifInstant(name)) }
+
+// verifZone presents the instant in a solver-chosen location: UTC, fixed zones east and west, and
+// two distinct zone values with the same offset — an instant is the same instant whatever offset
+// it was written with.
+func verifZone(name string, t time.Time) time.Time {
+	switch vConcInt(vndChoice(name+".zone", 5)) {
+	case 1:
+		return t.In(time.FixedZone("", 3600))
+	case 2:
+		return t.In(time.FixedZone("", -19800))
+	case 3:
+		return t.In(time.FixedZone("", 20700)) // +05:45: never served from Go's whole-hour zone cache
+	case 4:
+		return t.In(time.FixedZone("X", 3600))
+	}
+	return t.UTC()
+}
+
 func verifArgs(vs ...*lisp.LVal) *lisp.LVal { return lisp.SExpr(vs) }
 
 func verifBool(v *lisp.LVal) bool {
@@ -56,7 +76,7 @@ func verifBool(v *lisp.LVal) bool {
 // time<, time=, time> : exactly one holds, and it agrees with the sign of time-from.
 func VerifC15_KOrder() {
 	env := verifEnv()
-	a, b := verifInstant("a"), verifInstant("b")
+	a, b := verifInstantZ("a"), verifInstantZ("b")
 	lt := verifBool(BuiltinTimeLT(env, verifArgs(Time(a), Time(b))))
 	eq := verifBool(BuiltinTimeEq(env, verifArgs(Time(a), Time(b))))
 	gt := verifBool(BuiltinTimeGT(env, verifArgs(Time(a), Time(b))))
@@ -577,6 +597,8 @@ func VerifC15_KRoundTrip() {
 	vAssert(t2.Unix() == t.Unix(), "round trip preserves the second")
 	if nano {
 		vAssert(t2.Equal(t), "the -nano round trip preserves the instant")
+		vAssert(verifBool(BuiltinTimeEq(env, verifArgs(Time(t2), Time(t)))), "and time= says so")
+		vAssert(verifBool(BuiltinTimeEq(env, verifArgs(Time(t2), Time(t.UTC())))), "whatever offset the instant is written with")
 	} else {
 		vAssert(t2.Nanosecond() == 0, "the second-precision form drops the fraction")
 	}
